@@ -28,6 +28,10 @@ def run(ck, ctx):
                      "its `replica_id` field and no whole-value store through a `&mut LamportClock` (`*self = self.merge(other)` adopts the "
                      "sender's id) anywhere: two replicas that stamp with the same id can issue equal stamps for different values, and for equal "
                      "stamps every last-writer-wins merge keeps `self`, i.e. merge(a,b) != merge(b,a) on values the replicas really produce")
+    from . import c08 as _c08t
+    ck.rule("R07.7", _c08t.TICK_TEXT + " (shared with C08 R08.12: the merge laws are claimed for the values local operations can produce - equal stamps on "
+                     "different payloads, or an inner stamp behind the outer one, are values on which the certified merge functions stop commuting "
+                     "/ associating)")
     ck.nd("values 'reachable by local operations' are not modelled: the certificate quantifies over all field values")
     ck.assume("two stamps that are equal under the total order carry equal payloads (stamps are unique per replica: C08)")
     tree = certify(ck)
@@ -38,6 +42,8 @@ def run(ck, ctx):
         from . import c06
         c06.r066(ck, prog, cfg, "R07.5")
         r076(ck, prog, cfg, "R07.6")
+        from . import c08 as _c08
+        _c08.r0812(ck, prog, cfg, "R07.7")
 
 
 def certify(ck, rid=lambda r: r, floor_id="R07.0", skip_rules=()):
